@@ -477,14 +477,19 @@ def context_calls():
                 f()
             except Exception:  # noqa
                 pass
-    def reload_modules(objs):
-        # the package's modules re-executed while objects made from the earlier copies are alive (importlib.reload, IPython autoreload)
+    def reload_modules(objs, which="all"):
+        # the package's modules re-executed while objects made from the earlier copies are alive (importlib.reload, IPython autoreload);
+        # a single module alone, or all of them in one of two orders
         import importlib
         import localcider.backend.sequence as m1
         import localcider.backend.restable as m2
         import localcider.backend.sequenceComplexity as m3
         import localcider.backend.data.aminoacids as m4
-        for m in (m4, m2, m3, m1):
+        import localcider.backend.backendtools as m5
+        import localcider.backend.plotting as m6
+        order = {"all": (m4, m2, m3, m1), "all-reversed": (m1, m3, m2, m4, m5), "sequenceComplexity": (m3,), "sequence": (m1,),
+                 "plotting+backendtools": (m6, m5), "restable": (m2,)}[which]
+        for m in order:
             importlib.reload(m)
         # ... and the session simply goes on: new objects, objects derived from old ones, wrappers around old and new backend
         # objects, linear plots of both (whatever works in a fresh session works after a reload)
@@ -499,6 +504,9 @@ def context_calls():
                  ("a new object's delta-max permutant", lambda: SP(SEQ_D).get_deltaMax(True)),
                  ("a new object's delta", lambda: SP(SEQ_A).get_delta()),
                  ("a new object's reduced alphabet", lambda: SP(SEQ_A).get_reduced_alphabet_sequence(4)),
+                 ("reduced alphabets of old and new objects agree with the documented size",
+                  lambda: [len(set(x.get_reduced_alphabet_sequence(2)[0])) <= 2 or (_ for _ in ()).throw(AssertionError("size-2 reduction has more than two letters"))
+                           for x in (old, SP(SEQ_A))]),
                  ("a linear plot of an old object", lambda: old.show_linearNCPR(5, getFig=True)),
                  ("a linear plot of a shuffle", lambda: old.get_shuffled_sequence([0]).show_linearHydropathy(5, getFig=True)),
                  ("a linear plot of a new object", lambda: SP(SEQ_A).show_linearFCR(5, getFig=True)),
@@ -529,6 +537,11 @@ def context_calls():
                 except Exception:  # noqa
                     pass
     return [("interpreter-state: numpy errors raise, warnings are errors, stdout is ASCII-only", None), ("backend modules reloaded", reload_modules),
+            ("backend modules reloaded in reverse order", lambda objs: reload_modules(objs, "all-reversed")),
+            ("only backend.sequenceComplexity reloaded", lambda objs: reload_modules(objs, "sequenceComplexity")),
+            ("only backend.sequence reloaded", lambda objs: reload_modules(objs, "sequence")),
+            ("only backend.restable reloaded", lambda objs: reload_modules(objs, "restable")),
+            ("backend.plotting and backendtools reloaded", lambda objs: reload_modules(objs, "plotting+backendtools")),
             ("degenerate-arguments", degenerate_calls), ("setters-on-derived-objects", derived_then_set), ("show-plots", show_plots), ("save-plots", save_plots), ("moves-and-permutants", moves), ("sequence-file", from_file),
             ("setters-on-other-objects", other_object), ("wang-landau-run", wl_run), ("rejected-calls", rejected_calls)]
 
